@@ -129,10 +129,12 @@ def run(ck):
         ok = [norm(a) for a in c.args] == ['self'] and set(kws) == {'sdata', 'trigger', 'state', 'value'} \
             and norm(kws['value']) == 'self._output' and \
             expr_is(ck, se.fid, 'MK', sends[0], kws['state'], 'self._state') and \
-            norm(kws['trigger']) in ("trigger_type.removeprefix('on_')", "trigger_type[3:]")
+            expr_is(ck, se.fid, 'MK', sends[0], kws['trigger'],
+                    ("trigger_type.removeprefix('on_')", "trigger_type[3:]"))
         loops = [n for n in gs.nodes if n.kind == 'for' and gs.dominates(n, sends[0])]
-        tbl = nodes_where(gs, lambda n: isinstance(n.ast, ast.Assign) and
-                          norm(n.ast.value) == 'self._state_events[trigger_type]')
+        tbl = nodes_where(gs, lambda n: n.ast is not None and any(
+            norm(x) == 'self._state_events[trigger_type]' for x in walk_shallow(n.ast)),
+            kinds=('stmt', 'test', 'for'))
         ok = ok and len(loops) == 1 and bool(tbl)
     ck.ob(R1, se.fid, ok, "state events carry the state and output current at call time "
           "(so on_exit sees the old, on_enter the new ones), trigger without the 'on_' prefix"
@@ -287,9 +289,23 @@ def run(ck):
     idx = [n for n in gr.nodes if n.kind == 'stmt' and isinstance(n.ast, ast.Assign)
            and isinstance(n.ast.value, ast.Subscript) and norm(n.ast.value.slice) == 'name']
     rets = return_nodes(gr)
-    ok = len(apps) == 2 and srcs == {'cb()', 'cb(self)'} and \
-        tabs == {'self._fsm_functions[cb_type]', 'self._ct_methods[cb_type]'} and len(idx) == 2 and \
-        all(norm(r.ast.value) == 'retvals' for r in rets) and bool(rets)
+    # the two appended calls: <f>() and <g>(self), f and g taken from the two tables by `name`
+    shapes_ = set()
+    rdr = ck.rdefs(rc.fid, 'MK')
+    for a in apps:
+        c = node_calls(a, 'append')[0]
+        inner = c.args[0] if c.args else None
+        if isinstance(inner, ast.Call) and isinstance(inner.func, ast.Name):
+            vals_ = rdr.value_exprs(a, inner.func.id)
+            from_tab = bool(vals_) and all(not isinstance(v_, str) and isinstance(v_, ast.Subscript)
+                                           and norm(v_.slice) == 'name' for v_ in vals_)
+            shapes_.add((tuple(norm(x) for x in inner.args), from_tab))
+        elif isinstance(inner, ast.Call) and isinstance(inner.func, ast.Subscript):
+            shapes_.add((tuple(norm(x) for x in inner.args), norm(inner.func.slice) == 'name'))
+    acc = {norm(node_calls(a, 'append')[0].func.value) for a in apps}
+    ok = len(apps) == 2 and shapes_ == {((), True), (('self',), True)} and \
+        tabs == {'self._fsm_functions[cb_type]', 'self._ct_methods[cb_type]'} and \
+        len(acc) == 1 and all(norm(r.ast.value) in acc for r in rets) and bool(rets)
     # neither call is skipped because the other exists
     if ok:
         for a in apps:
